@@ -1390,7 +1390,7 @@ theorem addDirective_local_rpc (banned : List Kind) (d : BDir) (kids : List BDir
     · exact LocalAt.congr (addDescription_local_rpc d anc i hi' hpar) (fun c => by unfold addDirective; rw [if_neg hb, h])
     · exact LocalAt.congr (addRpcSchema_local true d anc i hi') (fun c => by unfold addDirective; rw [if_neg hb, h])
     · exact LocalAt.congr (addRpcSchema_local false d anc i hi') (fun c => by unfold addDirective; rw [if_neg hb, h])
-    · exact LocalAt.congr (addTags_local d i) (fun c => by unfold addDirective; rw [if_neg hb, h])
+    · exact LocalAt.congr (addTags_local d anc i) (fun c => by unfold addDirective; rw [if_neg hb, h])
 
 mutual
   theorem branch_local_rpc (banned : List Kind) (i : IId) : ∀ (t : BTree) (anc : List Up), allT rpcKind t = true →
@@ -1577,7 +1577,8 @@ theorem method_blk (banned : List Kind) (d : BDir) (kids : List BTree) (anc : Li
           rw [eD c, e1]
           exact REq.refl _
 
-/-- the directives that create no interaction: Tags (a check of the declared names), Path, Paste, Protocol (an
+/-- the directives that create no interaction: Tags (a check of the declared names; a Tags directive that is not the
+first one of its parent is an `errS` atom, F72), Path, Paste, Protocol (an
 entry of `protoURLs`) -/
 def quietKind (d : BDir) : Bool := d.kind == .Tags || d.kind == .Path || d.kind == .Paste || d.kind == .Protocol
 
@@ -1594,7 +1595,13 @@ mutual
         · intro a ha; simp only [List.mem_singleton] at ha; subst ha; exact Atom.err _
         · intro c; rw [addBranch_eq]; unfold addDirective; rw [if_pos hb]; rfl
       · rcases hq with ((hq | hq) | hq) | hq
-        · refine ⟨tagChk d :: A2, ?_, ?_⟩
+        · by_cases hsec : secondTags d anc = true
+          · refine ⟨[errS ⟨d.id, .notUnique⟩], ?_, ?_⟩
+            · intro a ha; simp only [List.mem_singleton] at ha; subst ha; exact Atom.err _
+            · intro c; rw [addBranch_eq]; unfold addDirective; rw [if_neg hb, hq]
+              show addTags d anc c >>= _ = _
+              unfold addTags; rw [if_pos hsec]; rfl
+          refine ⟨tagChk d :: A2, ?_, ?_⟩
           · intro a ha
             rcases List.mem_cons.1 ha with rfl | ha
             · exact Atom.chk d
@@ -1602,7 +1609,9 @@ mutual
           · intro c
             rw [addBranch_eq]
             have : addDirective banned d (kids.map BTree.dir) anc c = tagChk d c := by
-              unfold addDirective; rw [if_neg hb, hq]; rfl
+              unfold addDirective; rw [if_neg hb, hq]
+              show addTags d anc c = _
+              unfold addTags; rw [if_neg hsec]; rfl
             rw [this]
             show tagChk d c >>= _ = tagChk d c >>= runL A2
             congr 1; funext x; exact e2 x
